@@ -1195,6 +1195,7 @@ func checkC09core(cx *Ctx, r *Report, withBCE bool) {
 	nc.spInvOK = cx.checkSPInvariant(r)
 	nc.cfgInvOK = cx.checkConfigInvariant(r)
 	nc.established = cx.checkConstructedNonNil(r)
+	cx.requireC20(r) // facts of earlier steps hold in later ones only if steps run in order and stop at the first failure
 	nc.computeChainFacts(r)
 	nc.checkChainAssignments(r)
 	nc.checkCallbackErrorDeref(r)
